@@ -280,6 +280,10 @@ SetSeq(S) == LET F[k \in 0 .. MaxPos] == IF k = 0 THEN << >> ELSE IF k \in S THE
 NamedPreds(n) == { SetSeq(1 .. n), << >>, SetSeq({i \in 1 .. n : i % 2 = 1}), SetSeq({i \in 1 .. n : i % 2 = 0}),
                    <<1>>, <<n>>, SetSeq({i \in 1 .. n : i % 3 = 0}), SetSeq({i \in 1 .. n : i % 3 # 0}) }
 FCase(file, skip, inst, accept, procs) == [file |-> file, skip |-> skip, inst |-> inst, accept |-> accept, procs |-> procs]
+\* stateful filter kinds: "alt" (verdicts alternate per call), "firstN" (true for the first fn calls), "seen" (true only
+\* on the first call for an element); the Judge uses the recorded verdicts
+SCase(file, skip, inst, fkind, procs) == [file |-> file, skip |-> skip, inst |-> inst, accept |-> << >>, fkind |-> fkind, fn |-> 3, procs |-> procs]
+FKinds == {"alt", "firstN", "seen"}
 AllInst == <<TRUE, TRUE, TRUE>>
 NoSkip  == <<FALSE, FALSE, FALSE>>
 \* every pattern of optional parts over a short group x every predicate: the accept/reject pattern decides whose memory is
@@ -314,6 +318,16 @@ FilterCases(full, seed) ==
                  : s \in Bool3, i \in (IF full THEN Bool3 ELSE {AllInst, <<FALSE, FALSE, FALSE>>}), a \in NamedPreds(Len(DecodeFile(bf[k])))}
               : k \in 1 .. Len(bf)}
   \cup PatternCases(full, seed)
+  \* stateful filters on small files, larger multi-block files and an unsorted many-block file
+  \cup UNION {{SCase(ff[k], sk, i, fk, <<1, 2, 3>>)
+                 : sk \in (IF full THEN Bool3 ELSE {NoSkip, <<TRUE, FALSE, FALSE>>, <<FALSE, TRUE, TRUE>>}),
+                   i \in (IF full THEN Bool3 \ {<<FALSE, FALSE, FALSE>>} ELSE {AllInst, <<TRUE, FALSE, TRUE>>}), fk \in FKinds}
+              : k \in 1 .. Len(ff)}
+  \cup UNION {{SCase(bf[k], sk, i, fk, <<1, 2, 3>>)
+                 : sk \in (IF full THEN Bool3 ELSE {NoSkip, <<FALSE, FALSE, TRUE>>}), i \in {AllInst, <<FALSE, TRUE, TRUE>>}, fk \in FKinds}
+              : k \in 1 .. Len(bf)}
+  \cup {SCase(UnsortedFile(k, seed), sk, AllInst, fk, <<1, 2, 3>>)
+         : k \in (IF full THEN 1 .. 5 ELSE {4}), sk \in {NoSkip, <<FALSE, TRUE, TRUE>>, <<TRUE, FALSE, FALSE>>}, fk \in FKinds}
   \* unsorted many-block files under every skip combination (nodes after ways / relations must still be delivered)
   \cup {FCase(UnsortedFile(k, seed), sk, i, a, <<1, 2, 3>>)
          : k \in (IF full THEN 1 .. 5 ELSE {1, 3, 4}), sk \in Bool3, i \in {AllInst, <<FALSE, FALSE, FALSE>>},
